@@ -237,7 +237,12 @@ impl LanguageRegistry {
         let mut registry = Self::default();
         let mut overrides = Vec::new();
 
-        for (name, config) in custom {
+        // Register in name order: when two custom languages claim one extension the winner
+        // must not depend on hash-map iteration order.
+        let mut ordered: Vec<_> = custom.iter().collect();
+        ordered.sort_by(|a, b| a.0.cmp(b.0));
+
+        for (name, config) in ordered {
             // Track which extensions will be overridden
             for ext in &config.extensions {
                 if let Some(existing_lang) = registry.get_by_extension(ext) {
